@@ -194,7 +194,8 @@ class C07(Prop):
             if len(cmd) > 12:
                 return None if obs['framed'] is None else 'command longer than 12 bytes was framed'
             if obs['framed'] is None:
-                return 'frame() refused a command of at most 12 bytes'
+                # a command ending in NUL has no representation in the zero-padded field: refusing it is right
+                return None if cmd.endswith(b'\0') else 'frame() refused a representable command of at most 12 bytes'
             if bytes(obs['framed']) != ref_frame(magic, cmd, p):
                 return 'header is not magic, zero-padded command, LE length, dsha256[:4]'
             back = asyncio.run(_drive(magic, 2000000, 128000000, [obs['framed']]))
